@@ -4,8 +4,19 @@
     to_f64   cfg [dbg|rel] a     -> hex of the f64 bit pattern
     from_f32 cfg [dbg|rel] bits  -> hex pattern of `f32::from_bits(bits) as <cfg type>` (bits: hex)
     from_f64 cfg [dbg|rel] bits  -> hex pattern of `f64::from_bits(bits) as <cfg type>`
+    as_to_f32 / as_to_f64 / as_from_f32 / as_from_f64
+                                 the same conversions reached through `As::as_` (a blanket delegation to
+                                 `CastFrom::cast_from`): same model function, same spec
+    prim_to_f32 / prim_to_f64 / prim_from_f32 / prim_from_f64
+                                 the harness answers with rustc's native `as` on the PRIMITIVE integer of
+                                 the configuration's width (8 … 128 bits) — "exactly like Rust's `as`";
+                                 the model answer is the bnum model at that width, the spec answer the
+                                 exact spec: ties the (trusted) `Spec.Float` to rustc's own semantics.
   The build mode switches the `debug_assert!`s of `from_*_parts` and the strict / wrapping variants of
-  the unsuffixed `>>`, `<<`, `-` (none of which can fire: Lemmas/FloatD.lean); default `dbg`; `P` = panic.
+  the unsuffixed `>>`, `<<`, `-` (none of which can fire: Lemmas/FloatD.lean); `P` = panic.
+  WITHOUT a mode token BOTH variants of the model are evaluated (`dbg = true` and `dbg = false`); they
+  must agree (theorems `…_specD` hold for every `dbg`) and the common answer is printed — a disagreement
+  is printed as `dbg:<a>/rel:<b>`, which no crate answer equals.  With a token only that variant runs.
   Model answer: the DIGIT-LEVEL model Bnum.Model.FloatD (`FltD.*`) on the digit list; spec answer:
   Bnum.Spec.Float (exact integers).
 -/
@@ -18,34 +29,58 @@ open Bnum Bnum.Drive
 private def mfmt (is64 : Bool) : FloatFmt := if is64 then fmtF64 else fmtF32
 private def sfmt (is64 : Bool) : Spec.Fmt := if is64 then Spec.f64 else Spec.f32
 
-private def toFloat (c : Cfg) (is64 dbg : Bool) (a : String) : Option (String × String) := do
+/-- the model answer for the requested build mode(s): `none` = both, which must agree -/
+private def bothModes (mode : Option Bool) (f : Bool → String) : String :=
+  match mode with
+  | some dbg => f dbg
+  | none =>
+    let a := f true
+    let b := f false
+    if a == b then a else "dbg:" ++ a ++ "/rel:" ++ b
+
+private def toFloat (c : Cfg) (is64 : Bool) (mode : Option Bool) (a : String) : Option (String × String) := do
   let x ← parseVal c a
   let pat := U c.w x
-  let mo := if c.signed then FltD.floatFromBInt (mfmt is64) dbg c.w x
-            else FltD.floatFromBUint (mfmt is64) dbg c.w x
+  let mo := fun dbg => showOut toHex
+    (if c.signed then FltD.floatFromBInt (mfmt is64) dbg c.w x
+     else FltD.floatFromBUint (mfmt is64) dbg c.w x)
   let z : Int := if c.signed then toInt (M c.w c.n) pat else (pat : Int)
-  some (showOut toHex mo, toHex (Spec.intToFloat (sfmt is64) z))
+  some (bothModes mode mo, toHex (Spec.intToFloat (sfmt is64) z))
 
-private def fromFloat (c : Cfg) (is64 dbg : Bool) (b : String) : Option (String × String) := do
+private def fromFloat (c : Cfg) (is64 : Bool) (mode : Option Bool) (b : String) : Option (String × String) := do
   let bits ← parseHex b
   let F := mfmt is64
   if bits ≥ 2 ^ F.bits then none else
-  let mo := if c.signed then FltD.bintFromFloat F dbg c.w c.n bits
-            else FltD.buintFromFloat F dbg c.w c.n bits
-  some (showOut (showVal c) mo, toHex (Spec.floatToInt (sfmt is64) c.signed (M c.w c.n) bits))
+  let mo := fun dbg => showOut (showVal c)
+    (if c.signed then FltD.bintFromFloat F dbg c.w c.n bits
+     else FltD.buintFromFloat F dbg c.w c.n bits)
+  some (bothModes mode mo, toHex (Spec.floatToInt (sfmt is64) c.signed (M c.w c.n) bits))
 
-private def splitMode : List String → Bool × List String
-  | "dbg" :: r => (true, r)
-  | "rel" :: r => (false, r)
-  | r => (true, r)
+private def splitMode : List String → Option Bool × List String
+  | "dbg" :: r => (some true, r)
+  | "rel" :: r => (some false, r)
+  | r => (none, r)
+
+/-- widths that have a primitive integer type -/
+private def primWidth (c : Cfg) : Bool :=
+  let W := c.w * c.n
+  W == 8 || W == 16 || W == 32 || W == 64 || W == 128
 
 def handle : Handler := fun c op args =>
-  let (dbg, args) := splitMode args
+  let (mode, args) := splitMode args
   match op, args with
-  | "to_f32", [a] => toFloat c false dbg a
-  | "to_f64", [a] => toFloat c true dbg a
-  | "from_f32", [b] => fromFloat c false dbg b
-  | "from_f64", [b] => fromFloat c true dbg b
+  | "to_f32", [a] => toFloat c false mode a
+  | "to_f64", [a] => toFloat c true mode a
+  | "from_f32", [b] => fromFloat c false mode b
+  | "from_f64", [b] => fromFloat c true mode b
+  | "as_to_f32", [a] => toFloat c false mode a
+  | "as_to_f64", [a] => toFloat c true mode a
+  | "as_from_f32", [b] => fromFloat c false mode b
+  | "as_from_f64", [b] => fromFloat c true mode b
+  | "prim_to_f32", [a] => if primWidth c then toFloat c false mode a else none
+  | "prim_to_f64", [a] => if primWidth c then toFloat c true mode a else none
+  | "prim_from_f32", [b] => if primWidth c then fromFloat c false mode b else none
+  | "prim_from_f64", [b] => if primWidth c then fromFloat c true mode b else none
   | _, _ => none
 
 end Bnum.Drive.C14
